@@ -798,3 +798,43 @@ M.contract('exactly_lib.impls.types.string_source.ddvs:CommandOutputStringSource
                           app_env._process_execution_settings, app_env._os_services.command_executor)
                     and executions(trace) == []},
            raises_only=())
+
+
+# ------------------------------------------------------------------------------ stdout/stderr of a program in [assert]
+
+from exactly_lib.impls.program_execution import file_transformation_utils as ftu
+from exactly_lib.impls.exception.pfh_exception import PfhHardErrorException
+
+P_FTU = 'exactly_lib.impls.program_execution.file_transformation_utils'
+
+M.contract('exactly_lib.impls.file_creation:FileTransformerHelper.transform_to_file', trusted=True,
+           params=dict(self=Any_, src_path=Any_, dst_path=Any_, transformer=Any_), returns=Opt(Any_))
+M.trust('file_creation.FileTransformerHelper.transform_to_file applies an already built string transformer to a '
+        'file; it starts no process itself (a transformer that runs a program is its own site)')
+
+M.contract(P_FTU + ':make_transformed_file_from_output', inline=True,
+           params=dict(pgm_output_dir=Iface(FsPathI), process_execution_settings=SETTINGS, os_services=OS_SERVICES,
+                       tmp_file_space=DIR_FILE_SPACE, transformed_output=EnumOf(ProcOutputFile), program=PROGRAM),
+           ensures={'one process start on the OS services, with the given settings object (its timeout) unchanged':
+                    lambda process_execution_settings, os_services, program, trace:
+                    one_start(trace, program.command)
+                    and all_use(trace, os_services.command_executor, process_execution_settings)},
+           raises={PfhHardErrorException: {
+               'ensures': lambda process_execution_settings, os_services, exc, trace:
+               all_use(trace, os_services.command_executor, process_execution_settings)
+               and exc._status is pfh.PassOrFailOrHardErrorEnum.HARD_ERROR}},
+           raises_only=())
+
+M.contract(P_FTU + ':make_transformed_file_from_output_in_instruction_tmp_dir',
+           params=dict(environment=ENV_POST_SDS, os_services=OS_SERVICES, checked_output=EnumOf(ProcOutputFile),
+                       program=PROGRAM),
+           returns=Any_,
+           ensures={'one process start on the OS services, with the settings object of the environment (its timeout)':
+                    lambda environment, os_services, program, trace:
+                    one_start(trace, program.command)
+                    and all_use(trace, os_services.command_executor, environment._proc_exe_settings)},
+           raises={PfhHardErrorException: {
+               'ensures': lambda environment, os_services, exc, trace:
+               all_use(trace, os_services.command_executor, environment._proc_exe_settings)
+               and exc._status is pfh.PassOrFailOrHardErrorEnum.HARD_ERROR}},
+           raises_only=())
